@@ -132,8 +132,8 @@ def run(ctx):
     b = build.Builder()
     _EXE = b.harness('asan', 'decode', ['h_decode.c'])
     methods = list(lhnew.METHODS)
-    per = 70 if ctx.tier == 'quick' else 1100
-    reps = 1 if ctx.tier == 'quick' else 3
+    per = 400 if ctx.tier == 'quick' else 4000
+    reps = 1 if ctx.tier == 'quick' else 5
     args = []
     for mi, m in enumerate(methods):
         for r in range(reps):
